@@ -73,6 +73,8 @@ def layout_case(ctx, suite, g, b, case):
     old = gl.nx
     gl.nx = NxProxy()
     np.random.seed(case.get('seed', 0))
+    # the molecule as handed over: the guarantees are about ITS nodes and bonds
+    nodes_in, edges_in = list(g.nodes), [tuple(e) for e in g.edges]
     try:
         with lib.quiet():
             pos = gl.vespr_layout(g, default_bond=b)
@@ -118,14 +120,18 @@ def layout_case(ctx, suite, g, b, case):
                 ctx.disagree(suite, case, f'node {k}: implementation {list(pos[k])}, model ({mx}, {my})')
                 return pos
     # oracle
-    if set(pos) != set(g.nodes):
+    if list(g.nodes) != nodes_in or sorted(map(sorted, g.edges)) != sorted(map(sorted, edges_in)):
+        ctx.fail(case, f'the layout changed the molecule it was given: {len(nodes_in)} nodes / {len(edges_in)} bonds before, '
+                       f'{len(g)} / {g.number_of_edges()} after')
+        return pos
+    if set(pos) != set(nodes_in):
         ctx.fail(case, 'not exactly one position per node')
         return pos
     for k, p in pos.items():
         if np.shape(p) != (2,) or not np.all(np.isfinite(p)):
             ctx.fail(case, f'position of node {k} is {p}')
             return pos
-    lens = [float(np.linalg.norm(pos[a] - pos[c])) for a, c in g.edges]
+    lens = [float(np.linalg.norm(pos[a] - pos[c])) for a, c in edges_in]
     if min(lens) <= 1e-9 * b:
         ctx.fail(case, 'two bonded nodes coincide')
         return pos
@@ -133,6 +139,40 @@ def layout_case(ctx, suite, g, b, case):
     if abs(mean - b) > 1e-9 * max(1, b):
         ctx.fail(case, f'mean bond length {mean} but default_bond={b}')
     return pos
+
+
+STEREO_MOLECULES = ['C1CCC/C=C\\CC1', 'C1CCCC/C=C\\CCC1', 'C1CCCC/C=C/CCCC1', 'C/C=C/C', 'C/C=C\\C', 'F/C=C/Cl', 'CC/C=C(/F)C',
+                    'C1CC/C=C\\CC/C=C\\C1', 'OC/C=C/CC(=O)O']
+
+
+def refined_case(ctx, g, b, align, case):
+    """vespr_refined_layout: an optimiser on top of the same start — one finite position per node, bonded nodes apart,
+    the molecule unchanged, and the requested SCALE (mean bond length within 25 % of default_bond: measured deviation of
+    the optimiser on the unchanged tree is below 4 %), whatever axis the drawing is aligned with"""
+    import cgsmiles.graph_layout as gl
+    nodes_in, edges_in = list(g.nodes), [tuple(e) for e in g.edges]
+    np.random.seed(case.get('seed', 0))
+    try:
+        with lib.quiet():
+            pos = gl.vespr_refined_layout(g, default_bond=b, align_with=align)
+    except Exception as err:   # noqa: BLE001
+        ctx.fail(case, f'vespr_refined_layout raised {type(err).__name__}: {str(err)[:80]}')
+        return
+    ctx.count('refined', lib.stable_hash([len(g), g.number_of_edges(), b, None if align is None else list(map(float, align))]),
+              nontrivial=len(g) >= 3, sample={'s': case.get('s'), 'bond': b})
+    if list(g.nodes) != nodes_in or sorted(map(sorted, g.edges)) != sorted(map(sorted, edges_in)):
+        ctx.fail(case, 'the refined layout changed the molecule it was given')
+        return
+    if set(pos) != set(nodes_in) or any(np.shape(p) != (2,) or not np.all(np.isfinite(p)) for p in pos.values()):
+        ctx.fail(case, 'refined layout: not exactly one finite 2D position per node')
+        return
+    lens = [float(np.linalg.norm(pos[a] - pos[c])) for a, c in edges_in]
+    if min(lens) <= 1e-9 * b:
+        ctx.fail(case, 'refined layout: two bonded nodes coincide')
+        return
+    mean = sum(lens) / len(lens)
+    if abs(mean - b) > 0.25 * b:
+        ctx.fail(case, f'refined layout: mean bond length {mean:.4f} but default_bond={b} (align_with={None if align is None else list(align)})')
 
 
 def small_graphs():
@@ -178,6 +218,34 @@ def run(ctx):
             continue
         case = {'kind': 'layout-mol', 's': c['s'], 'bond': 1.0, 'seed': 1}
         layout_case(ctx, 'molecule', aa, 1.0, case)
+    # molecules with cis/trans annotations (the layout rotates parts of them), double bonds in rings included
+    for i in range(ctx.budget(6, 60)):
+        smi = STEREO_MOLECULES[i % len(STEREO_MOLECULES)]
+        s = '{[#A]}.{#A=%s}' % smi
+        try:
+            with lib.quiet():
+                _, aa = impl.resolver_from_string(s).resolve()
+        except Exception:   # noqa: BLE001
+            continue
+        b = rng.choice([1.0, 1.5, 0.5])
+        case = {'kind': 'layout-mol', 's': s, 'bond': b, 'seed': rng.randint(0, 9)}
+        ctx.feature('stereo-molecule' + (':ring' if '1' in smi else ':chain'))
+        layout_case(ctx, 'molecule-stereo', aa, b, case)
+    # the refined layout, aligned with nothing / a unit axis / an axis that is not a unit vector
+    for i in range(ctx.budget(4, 60)):
+        c = gen_mol.cut_case(rng, nmin=3, nmax=8)
+        try:
+            with lib.quiet():
+                _, aa = impl.resolver_from_string(c['s']).resolve()
+        except Exception:   # noqa: BLE001
+            continue
+        if aa.number_of_edges() == 0 or not nx.is_connected(aa):
+            continue
+        b = rng.choice([1.0, 0.5, 2.5])
+        align = [None, np.array([0., 1.]), np.array([3., 2.]), np.array([0.3, 0.4])][i % 4]
+        case = {'kind': 'layout-refined', 's': c['s'], 'bond': b, 'seed': i, 'align': None if align is None else list(map(float, align))}
+        ctx.feature('refined:' + ('no-axis' if align is None else 'unit-axis' if abs(np.linalg.norm(align) - 1) < 1e-12 else 'non-unit-axis'))
+        refined_case(ctx, aa, b, align, case)
 
 
 def graph_of(case):
@@ -193,6 +261,11 @@ def graph_of(case):
 
 def corpus_case(ctx, payload):
     case = payload['case']
+    if case.get('kind') == 'layout-refined':
+        with lib.quiet():
+            _, aa = impl.resolver_from_string(case['s']).resolve()
+        refined_case(ctx, aa, case['bond'], None if case.get('align') is None else np.array(case['align']), case)
+        return
     layout_case(ctx, 'corpus', graph_of(case), case['bond'], case)
 
 
@@ -200,7 +273,10 @@ def replay(payload):
     import check
     ctx = check.Ctx(PROP, 'quick', 0, oracle_only=True)
     case = payload['case']
-    layout_case(ctx, 'replay', graph_of(case), case['bond'], case)
+    if case.get('kind') == 'layout-refined':
+        corpus_case(ctx, payload)
+    else:
+        layout_case(ctx, 'replay', graph_of(case), case['bond'], case)
     for c, what, _ in ctx.failures:
         print('FAILS:', what)
     return 1 if ctx.failures else 0
